@@ -9,7 +9,7 @@ Inductive case20 :=
   | KEft (fc : fctx) (f : string) (args : list rf)            (* eft.f(args..., ctx=fc) or core.ldexp *)
   | KSplit (fc : fctx) (x n : fl)
   | KModf (fc : fctx) (x : fl)
-  | KFrexp (fc : fctx) (xctx : option (Z * option Z)) (x : fl).
+  | KFrexp (v : frexp_variant) (fc : fctx) (xctx : option (Z * option Z)) (x : fl).
 
 Definition o_rfl (l : list rf) : out := OList (map ORf l).
 Definition o_fl2 (p : fl * fl) : out := OPair (OFl (fst p)) (OFl (snd p)).
@@ -19,7 +19,7 @@ Definition run20 (P : prog) (c : case20) : out :=
   | KEft fc f args => of_result o_rfl (call (numF fc) FUEL P f args)
   | KSplit fc x n => of_result o_fl2 (core_split fc x n)
   | KModf fc x => of_result o_fl2 (core_modf fc x)
-  | KFrexp fc xctx x => of_result o_fl2 (core_frexp fc xctx x)
+  | KFrexp v fc xctx x => of_result o_fl2 (core_frexp v fc xctx x)
   end.
 
 (* results are compared as values: class, sign (of zeros and infinities too for
